@@ -16,7 +16,8 @@ def logu(lo=1e-3, hi=1e3):
 
 
 def real(lo=-10.0, hi=10.0):
-    return st.floats(lo, hi, allow_nan=False, allow_infinity=False).map(r6)
+    # rounded to 1e-6 absolute: no denormals / 1e-300 values in specs
+    return st.floats(lo, hi, allow_nan=False, allow_infinity=False).map(lambda v: round(r6(v), 6) + 0.0)
 
 
 def signed_logu(lo=1e-3, hi=1e3):
